@@ -21,7 +21,7 @@ Require Import List NArith ZArith Bool.
 Import ListNotations.
 Require Import LV.PropTree.PropModel LV.PropTree.DocSpec LV.PropTree.PropProofs LV.PropTree.QuoteProofs
         LV.PropTree.RebuildProofs LV.PropTree.YamlModel LV.PropTree.YamlText LV.PropTree.YamlTextProofs
-        LV.PropTree.YamlProofs.
+        LV.PropTree.YamlProofs LV.PropTree.YamlSpec LV.PropTree.YamlImportProofs.
 
 (* ---------------------------------------------------------------- the text class *)
 
@@ -94,6 +94,67 @@ Theorem c14_import_replaces_content_modulo_libyaml
   wf t -> tree_text_ok t = true -> good (import_document (rt (yaml_export t)) root) t.
 Proof. exact (import_document_replaces rt rt_scalar rt_tilde rt_mapping rt_sequence root t). Qed.
 Print Assumptions c14_import_replaces_content_modulo_libyaml.
+
+(* ---------------------------------------------------------------- the public importers over a NON-EMPTY destination.
+   import_public l root: vnaproperty_import_yaml_from_file / _from_string as coded, where l is what the
+   YAML parser delivers (a syntax error, an empty document, or a document tree) and root the content of
+   the destination before the call.  YamlSpec.d_import_public is the document-level meaning: a document
+   is imported into the EMPTY document (the old content does not occur in the specification), a syntax
+   error or an empty document leaves the destination as it was.  For EVERY old content and EVERY parser
+   result - any document tree at all, not only exported ones; plain nulls, duplicate and nested
+   descriptor keys, keys that are no descriptors - the code's result is the specification's: after a
+   successful import the destination is exactly the imported document, the null document included;
+   when the import stops at a bad key the destination holds the part imported so far and nothing of
+   the old content; after a syntax error / empty document it is unchanged.  No hypotheses. *)
+Theorem c14_import_replaces (l : yload) (root : node) :
+  (abs (fst (import_public l root)), snd (import_public l root)) = d_import_public l (abs root).
+Proof. exact (import_replaces l root). Qed.
+Print Assumptions c14_import_replaces.
+
+(* the importer itself refines the document-level import for every document and every anchor content
+   (this is also what vnacal_load relies on when it merges repeated "properties" entries) *)
+Theorem c14_import_refines_document_import (y : ynode) (n : node) :
+  d_yaml_import y (abs n) = (abs (fst (yaml_import y n)), snd (yaml_import y n)).
+Proof. exact (sim_yaml_import y n). Qed.
+Print Assumptions c14_import_refines_document_import.
+
+(* the null document - what export writes for a NULL tree - clears the destination (seeded change
+   C14-6 kept the old content here), byte-level statement for every old content and every null word *)
+Theorem c14_import_null_document_clears (root : node) (v : bytes) :
+  is_yaml_null v = true -> import_public (YDocument (YScalar v YPlain)) root = (NNull, true).
+Proof. exact (import_null_document_clears root v). Qed.
+Print Assumptions c14_import_null_document_clears.
+
+(* what the specification gives for each kind of root node and for the two failures before the import *)
+Theorem c14_import_replaces_kinds (root : node) :
+  (forall v, is_yaml_null v = true -> d_import_public (YDocument (YScalar v YPlain)) (abs root) = (DNull, true)) /\
+  (forall v st, is_yaml_null v && is_plain st = false ->
+                d_import_public (YDocument (YScalar v st)) (abs root) = (DScalar v, true)) /\
+  d_import_public (YDocument (YMapping [])) (abs root) = (DMap [], true) /\
+  d_import_public (YDocument (YSequence [])) (abs root) = (DList [], true) /\
+  d_import_public YSyntaxError (abs root) = (abs root, false) /\
+  d_import_public YEmptyDocument (abs root) = (abs root, false).
+Proof. exact (import_replaces_kinds root). Qed.
+Print Assumptions c14_import_replaces_kinds.
+
+(* computed, old content { old: [1] }: the plain ~ gives NULL, the quoted "~" the scalar; keys "a.b",
+   "l[1]", "a" are descriptors and merge; a key "[" stops the import: the pair before it stays, the old
+   content is gone, failure is reported; a syntax error / empty document changes nothing *)
+Theorem c14_import_replaces_examples :
+  import_public (YDocument (YScalar [126]%N YPlain)) old_tree = (NNull, true) /\
+  import_public (YDocument (YScalar [126]%N YDouble)) old_tree = (NScalar [126]%N, true) /\
+  import_public (YDocument (YMapping [(YScalar [97; 46; 98]%N YPlain, YScalar [49]%N YPlain);
+                                      (YScalar [108; 91; 49; 93]%N YDouble, YSequence [YScalar [126]%N YPlain]);
+                                      (YScalar [97]%N YPlain, YMapping [(YScalar [99]%N YPlain, YScalar [50]%N YPlain)])])) old_tree
+  = (NMap [([97], NMap [([98], NScalar [49]); ([99], NScalar [50])]); ([108], NList [NNull; NList [NNull] 8] 8)]%N, true) /\
+  import_public (YDocument (YMapping [(YScalar [97]%N YPlain, YScalar [49]%N YPlain);
+                                      (YScalar [91]%N YDouble, YScalar [50]%N YPlain);
+                                      (YScalar [98]%N YPlain, YScalar [51]%N YPlain)])) old_tree
+  = (NMap [([97]%N, NScalar [49]%N)], false) /\
+  import_public YSyntaxError old_tree = (old_tree, false) /\
+  import_public YEmptyDocument old_tree = (old_tree, false).
+Proof. exact import_replaces_examples. Qed.
+Print Assumptions c14_import_replaces_examples.
 
 (* ---------------------------------------------------------------- a whole calibration file.
    save_file g cals: the document vnacal_save writes (properties: export g; calibrations: one
